@@ -1,6 +1,6 @@
 import RV.C17.LemmasSound
 import RV.C17.LemmasFresh
-import RV.C17.LemmasTrie
+import RV.C17.LemmasTrieHist
 /-
   C17 — property theorems (statements first, as `def … : Prop`, then the proofs).
 
@@ -70,6 +70,17 @@ def Statement_split_spec : Prop :=
 def Statement_longest_is_longest : Prop :=
   ∀ (known : List Str) (v : Str), LongestSpec known v (getLongest v (known.foldl insertForest []))
 
+/-- After every history the trie of either manager is well formed, and the lookup that
+    `compute_qname` makes — `get_longest_namespace(self.__strie[n0], uri)` — returns, among the
+    namespaces in the trie that strictly extend the split namespace `n0`, the longest one that
+    prefixes the IRI (`none` when there is none; `findSub = none` means `n0` is not in the trie). -/
+def Statement_longest_in_histories : Prop :=
+  ∀ (ops : List Op) (i : Bool) (n0 uri : Str),
+    FInv ((St.init.run ops).mgr i).trie ∧
+      (LongestSpec ((vals ((St.init.run ops).mgr i).trie).filter (fun w => decide (n0 <+: w ∧ n0 ≠ w))) uri
+          ((findSub n0 ((St.init.run ops).mgr i).trie).bind (getLongest uri)) ∨
+        findSub n0 ((St.init.run ops).mgr i).trie = none)
+
 /-- `insert_trie` keeps the trie well formed (below a node every value strictly extends its key;
     siblings are never prefixes of one another) and adds exactly the inserted value. -/
 def Statement_trie_inv_insert : Prop :=
@@ -115,6 +126,11 @@ theorem split_spec : Statement_split_spec :=
   fun _ _ _ _ h => ⟨splitUri_append h, splitUri_shape h⟩
 
 theorem longest_is_longest : Statement_longest_is_longest := getLongest_build
+
+theorem longest_in_histories : Statement_longest_in_histories := by
+  intro ops i n0 uri
+  have h := (TInv.run ops TInv.init).mgr i
+  exact ⟨h, refine_spec h n0 uri⟩
 
 theorem trie_inv_insert : Statement_trie_inv_insert := fun _ v h => insertForest_spec h v
 
